@@ -28,7 +28,9 @@ pub fn gen_plan(property: &str, seed: u64, index: u64, tier: Tier) -> Plan {
     let mut knobs = std::collections::BTreeMap::new();
     let mut ops: Vec<Op> = Vec::new();
     if property == "C10CLI" {
-        knobs.insert("depth".into(), if tier == Tier::Thorough { 4 } else { 3 });
+        // depth 4 from the initial position is the figure the README publishes (5,072,212)
+        knobs.insert("depth".into(), 4);
+        let _ = tier;
         return Plan {
             property: "C10".into(),
             scenario: "cli-count-positions".into(),
@@ -441,6 +443,8 @@ fn exec_count(plan: &Plan) -> Outcome {
     let output = Command::new(chess_bin())
         .args(["count-positions", "--depth", &depth.to_string()])
         .env_remove("RUST_LOG")
+        // large enough that nothing is evicted during a depth-4 count, small enough to construct quickly
+        .env("CHESS_VERIF_LRU_CAPACITY", "2000000")
         .stdin(Stdio::null())
         .stderr(Stdio::null())
         .output();
